@@ -474,8 +474,8 @@ func (mw *msgWriter) writeHeader(key Header, values ...string) int {
 	buffer.WriteString(string(key))
 	charLength -= len(key)
 	if len(values) == 0 {
-		buffer.WriteString(":\r\n")
-		return lines + 1
+		// Headers without a value are omitted, so there is no line to count
+		return lines
 	}
 	buffer.WriteString(": ")
 	charLength -= 2
